@@ -80,6 +80,10 @@ pub fn judge(x: &Vec<u8>, st: &mut Stats) -> Verdict {
         "raw-length-stated-last",
         guard(|| Builder::new(x[12], x[13]).write_payload(h.address_bytes())?.write_payload(h.tlv_bytes())?.set_length(u16::from_be_bytes([x[14], x[15]])).build()),
     )?;
+    check(
+        "raw-with-capacity-hints",
+        guard(|| Builder::new(x[12], x[13]).reserve_capacity(original.len()).write_payload(h.address_bytes())?.reserve_capacity(3).write_payload(h.tlv_bytes())?.reserve_capacity(0).build()),
+    )?;
     // c. the TLV iterator as a payload
     check("tlvs-iterator", guard(|| Builder::new(x[12], x[13]).write_payload(h.address_bytes())?.write_payload(h.tlvs())?.build()))?;
     // c2. a proxy that validates before it forwards: the iterator has been walked (fully, or by one item) before it
@@ -149,6 +153,22 @@ pub fn judge(x: &Vec<u8>, st: &mut Stats) -> Verdict {
             guard(|| Builder::with_addresses(h.version | h.command, h.protocol, h.addresses).write_payloads(items.iter())?.set_length(u16::from_be_bytes([x[14], x[15]])).build()),
         )?;
         check("items-batch", guard(|| Builder::new(x[12], x[13]).write_payload(h.address_bytes())?.write_payloads(items.iter())?.build()))?;
+        // items whose kind is a registered code are named through the crate's `Type` constant (what a forwarder that
+        // understands them does); a capacity hint for the whole header up front and a smaller one before the TLVs
+        check(
+            "items-by-registered-name",
+            guard(|| {
+                let mut b = Builder::new(x[12], x[13]).reserve_capacity(original.len()).write_payload(h.address_bytes())?.reserve_capacity(section.len().min(64));
+                for it in &items {
+                    b = match crate::oracle::enc::TYPE_CODES.iter().position(|(_, c)| *c == it.kind) {
+                        Some(i) if it.value.len() % 2 == 0 => b.write_tlv(crate::bld::TYPES[i], it.value.as_ref())?,
+                        Some(i) => b.write_payload((crate::bld::TYPES[i], it.value.as_ref()))?,
+                        None => b.write_tlv(it.kind, it.value.as_ref())?,
+                    };
+                }
+                b.build()
+            }),
+        )?;
         check(
             "items-write_tlv",
             guard(|| {
